@@ -13,6 +13,7 @@ import (
 	"path/filepath"
 	"sort"
 	"sync"
+	"sync/atomic"
 	"syscall"
 	"time"
 
@@ -88,6 +89,33 @@ func WaitFor(d time.Duration, f func() bool) bool {
 	}
 }
 
+// Progress is a counter the pieces of a harness bump whenever the code under test demonstrably did
+// something (took input, delivered output).
+type Progress struct{ n int64 }
+
+func (p *Progress) Tick() { atomic.AddInt64(&p.n, 1) }
+
+// AwaitProgress waits for done.  It gives up (false) only when done has not happened and the progress
+// counter has not moved for idle - a limit on silence, not on the duration of the run, so that a long
+// input on a slow, loaded machine (race detector, injected yields) cannot trip it.
+func AwaitProgress(done <-chan struct{}, p *Progress, idle time.Duration) bool {
+	tick := time.NewTicker(idle / 8)
+	defer tick.Stop()
+	last, since := int64(-1), time.Now()
+	for {
+		select {
+		case <-done:
+			return true
+		case <-tick.C:
+			if v := atomic.LoadInt64(&p.n); v != last {
+				last, since = v, time.Now()
+			} else if time.Since(since) >= idle {
+				return false
+			}
+		}
+	}
+}
+
 // ReadError returns the error value a real source reports for the named kind of failure: the errno of
 // an unplugged device wrapped the way the os package wraps it, a reset connection, a closed file, ...
 // ("" or an unknown kind: a plain text error).
@@ -128,6 +156,7 @@ type LatencyWriter struct {
 	Delays []time.Duration // cycled
 	calls  int
 	closed bool
+	Prog   *Progress // ticked on every Write, if set
 }
 
 func (w *LatencyWriter) Close() error {
@@ -138,6 +167,9 @@ func (w *LatencyWriter) Close() error {
 }
 
 func (w *LatencyWriter) Write(p []byte) (int, error) {
+	if w.Prog != nil {
+		w.Prog.Tick()
+	}
 	w.mu.Lock()
 	i := w.calls
 	w.calls++
